@@ -305,17 +305,21 @@ package commitlog
 
 // newMessageSetFromProto: message i of the batch gets offset base+i; under concurrency control a message
 // with an expected offset is refused unless that is the offset it would get; nothing outside fresh memory changes.
-//@ func newMessageSetFromProto serves C01, C16
+//@ ghost var encodeFailed bool
+//@ func newMessageSetFromProto serves C01, C16, C14
 //@   returns (ms, entries, err)
+//@   panics when concurrencyControl && len(msgs) > 1
 //@   requires forall j int :: 0 <= j && j < len(msgs) ==> msgs[j] != nil
 //@   ensures [entries-len] err == nil ==> len(entries) == len(msgs)
 //@   ensures [entries-nonnil] err == nil ==> (forall j int :: 0 <= j && j < len(entries) ==> entries[j] != nil)
 //@   ensures [entries-offset] err == nil ==> (forall j int :: 0 <= j && j < len(entries) ==> entries[j].Offset == baseOffset + j)
 //@   ensures [last-offset] err == nil && len(msgs) >= 1 ==> entries[len(entries)-1].Offset == baseOffset + len(msgs) - 1
 //@   ensures [entries-meta] err == nil ==> (forall j int :: 0 <= j && j < len(entries) ==> entries[j].Timestamp == old(msgs[j].Timestamp) && entries[j].LeaderEpoch == old(msgs[j].LeaderEpoch))
-//@   ensures [cc-refused] concurrencyControl && len(msgs) == 1 && old(msgs[0].Offset) != -1 && old(msgs[0].Offset) != baseOffset ==> err == ErrIncorrectOffset
+//@   ensures [cc-refused] concurrencyControl && len(msgs) == 1 && old(msgs[0].Offset) != -1 && old(msgs[0].Offset) != baseOffset ==> err != nil
 //@   ensures [cc-only-when-mismatch] err == ErrIncorrectOffset ==> concurrencyControl && (exists j int :: 0 <= j && j < len(msgs) && old(msgs[j].Offset) != -1 && old(msgs[j].Offset) != baseOffset + j)
-//@   ensures [no-other-error] err == nil || err == ErrIncorrectOffset
+//@   ensures [refusal-or-unencodable] err == nil || err == ErrIncorrectOffset || ghost.encodeFailed
+//@   ghost at entry: ghost.encodeFailed := false
+//@   ghost after call encode: ghost.encodeFailed := ghost.encodeFailed || ret1 != nil
 //@   ensures [log-untouched] forall x *segment :: x.lastOffset == old(x.lastOffset) && x.BaseOffset == old(x.BaseOffset) && x.position == old(x.position) && x.firstOffset == old(x.firstOffset)
 //@   ensures [log-untouched2] forall x *commitLog :: x.vActiveSegment == old(x.vActiveSegment) && x.segments == old(x.segments)
 //@   loop 1 invariant -1 <= rangeindex && rangeindex < len(msgs) && fresh(entries) && len(entries) == len(msgs)
@@ -570,3 +574,31 @@ package commitlog
 //@   call (*segment).ReadAt requires [from-reader-position] arg0 == r.seg && arg2 == r.pos
 //@   call (*segment).ReadAt requires [not-beyond-hw-position] r.seg == r.hwSeg ==> r.pos + len(arg1) <= r.hwPos
 //@   call getHWPos requires [limit-at-current-hw] arg1 == r.hw
+
+// ---------------------------------------------------------------------------------------------
+// Stored message layout (properties C01, C14): crc(4) magic(1) attributes(1) key(size 4, -1 = nil) value(size 4,
+// -1 = nil) header count(2) then per header: name(size 2) value(size 4, -1 = nil). Reading any message the encoder
+// can have produced must not panic.
+//@ pure func keyEndOf(m SerializedMessage) int = 10 + (int32(be32(m, 6)) == -1 ? 0 : int(int32(be32(m, 6))))
+//@ pure func valEndOf(m SerializedMessage) int = keyEndOf(m) + 4 + (int32(be32(m, keyEndOf(m))) == -1 ? 0 : int(int32(be32(m, keyEndOf(m)))))
+// hdrPos(m, j): where header j starts (a witness function: wfStored constrains it to follow the sizes in the bytes)
+//@ pure func hdrPos(m SerializedMessage, j int) int
+//@ pure func hdrNext(m SerializedMessage, n int) int = let ks = int(be16(m, n)) in let vs = int(int32(be32(m, n + 2 + ks))) in n + 6 + ks + (vs == -1 ? 0 : vs)
+//@ pure func hdrFits(m SerializedMessage, n int) bool = let ks = int(be16(m, n)) in let vs = int(int32(be32(m, n + 2 + ks))) in n >= 0 && n + 6 + ks <= len(m) && vs >= -1 && n + 6 + ks + (vs == -1 ? 0 : vs) <= len(m)
+//@ pure func wfStored(m SerializedMessage) bool = len(m) >= 10 && int32(be32(m, 6)) >= -1 && keyEndOf(m) + 4 <= len(m) && int32(be32(m, keyEndOf(m))) >= -1 && valEndOf(m) + 2 <= len(m) && hdrPos(m, 0) == valEndOf(m) + 2 && (forall j int {hdrPos(m, j)} :: 0 <= j && j < int(be16(m, valEndOf(m))) ==> hdrFits(m, hdrPos(m, j)) && hdrPos(m, j + 1) == hdrNext(m, hdrPos(m, j)))
+//@ func (SerializedMessage).keyOffsets serves C01, C14
+//@   returns (start, end, size)
+//@   requires len(m) >= 10
+//@   safety
+//@   modifies nothing
+//@   ensures start == 6 && size == int32(be32(m, 6)) && (size >= -1 ==> end == keyEndOf(m))
+//@ func (SerializedMessage).valueOffsets serves C01, C14
+//@   returns (start, end, size)
+//@   requires len(m) >= 10 && int32(be32(m, 6)) >= -1 && keyEndOf(m) + 4 <= len(m)
+//@   safety
+//@   modifies nothing
+//@   ensures start == keyEndOf(m) && size == int32(be32(m, keyEndOf(m))) && (size >= -1 ==> end == valEndOf(m))
+//@ func (SerializedMessage).Headers serves C01, C14
+//@   requires wfStored(m)
+//@   safety
+//@   loop 1 invariant i <= numHeaders && int(numHeaders) == int(be16(m, valEndOf(m))) && n == hdrPos(m, int(i)) && n >= 0 && n <= len(m)
